@@ -3478,6 +3478,8 @@ FROM (
 
         select_parts = [quote_name(c) for c in (*other_ids, *cond_mapping.values())]
         select_parts.append(f"{computed_expr} AS _computed")
+        # Marks "this rule produced a datapoint" when there is no other identifier to test
+        select_parts.append("1 AS _hit")
 
         where_parts = self._build_hr_mode_filter(
             mode=mode,
@@ -3514,7 +3516,7 @@ FROM (
                 other_val_has.append(f"p.{_has_col(i)}")
 
         key_cols = [f"p.{k}" for k in join_keys]
-        first_key = join_keys[0] if join_keys else "_computed"
+        first_key = join_keys[0] if join_keys else "_hit"
 
         if input_mode == "rule_priority":
             guard = "r._computed IS NOT NULL"
@@ -3524,12 +3526,13 @@ FROM (
         has_expr = f"CASE WHEN r.{first_key} IS NOT NULL THEN 1 ELSE p.{has_col} END AS {has_col}"
 
         all_select = key_cols + other_val_has + [val_expr, has_expr]
-        using_clause = ", ".join(join_keys) if join_keys else "1=1"
+        # The rule component may be the only identifier: nothing to join on
+        join_clause = f"USING ({', '.join(join_keys)})" if join_keys else "ON TRUE"
 
         return (
             f"  SELECT {', '.join(all_select)}\n"
             f"  FROM {prev_pivot} p\n"
-            f"  LEFT JOIN {rule_cte} r USING ({using_clause})"
+            f"  LEFT JOIN {rule_cte} r {join_clause}"
         )
 
     def _build_hr_mode_filter(
